@@ -13,6 +13,8 @@
 
 static RegP p;
 static RPMaybeFrame mf;
+static RPFrame *stale_frame;   /* what the caller's RPMaybeFrame still points to after regp_free() */
+static bool frame_freed;
 static bool ready;
 static bool mem16;
 
@@ -183,6 +185,7 @@ harness_reset(void)
     nout = mark = 0;
     ready = false;
     memset(&mf, 0, sizeof mf);
+    stale_frame = NULL; frame_freed = false;
     ascript[0] = 0; apos = 0;
     bestatus = beaddr = beseed = 0;
 }
@@ -338,6 +341,9 @@ harness_op(int argc, char **argv)
             free(d);
         }
         if (mf.frame != NULL) { printf("bad-op"); return; }
+        /* the documented receive loop reuses one RPMaybeFrame and does not clear it after regp_free(): hand
+         * regp_recv() exactly that - a structure whose frame member still holds the released block */
+        if (frame_freed) { mf.frame = stale_frame; frame_freed = false; }
         int rc = regp_recv(&p, &mf);
         printf("rc="); print_rc0(rc);
         printf(" err=%s fsz=%zu frame=", mf.error.id ? errname(mf.error.id) : "0", mf.error.framesize);
@@ -355,6 +361,7 @@ harness_op(int argc, char **argv)
         printf(" ## calls=%s reply=", callslen ? calls : "-"); print_reply();
     } else if (strcmp(op, "rp.free") == 0 && argc == 1) {
         regp_free(&p, mf.frame);
+        if (mf.frame != NULL) { stale_frame = mf.frame; frame_freed = true; }
         mf.frame = NULL;
         printf("live="); print_live();
     } else if (strcmp(op, "rp.req") == 0 && (argc == 4 || argc == 5)) {
